@@ -333,12 +333,17 @@ impl TerminalRenderer {
             if let CellKind::Image(image) = &old.kind {
                 term.execute(TerminalCommand::ImageErase(image.clone(), Some(pos)))?;
                 let size = image.size_cells(self.size.pixels_per_cell());
+                // cells that are already covered by an image of the new frame
+                // must stay ignored, they are erased when that image is drawn
                 self.marks
                     .view_mut(
                         pos.row..pos.row + size.height,
                         pos.col..pos.col + size.width,
                     )
-                    .fill(CellMark::Damaged);
+                    .fill_with(|_, mark| match mark {
+                        CellMark::Ignored => CellMark::Ignored,
+                        _ => CellMark::Damaged,
+                    });
             }
 
             // record image to be rendered, and mark area under the image to be ignored
